@@ -169,6 +169,54 @@ impl std::error::Error for ChainErr {
     }
 }
 
+/// Errors that keep their source *inline* as their first field (`struct Outer { source: Inner, .. }`),
+/// so that an error and its source live at the same address — unlike the boxed `ChainErr`.
+#[derive(Debug)]
+#[repr(C)]
+pub struct InlineErr<E> {
+    pub inner: E,
+    pub msg: String,
+}
+
+impl<E> std::fmt::Display for InlineErr<E> {
+    fn fmt(&self, f: &mut std::fmt::Formatter<'_>) -> std::fmt::Result {
+        f.write_str(&self.msg)
+    }
+}
+
+impl<E: std::error::Error + 'static> std::error::Error for InlineErr<E> {
+    fn source(&self) -> Option<&(dyn std::error::Error + 'static)> {
+        Some(&self.inner)
+    }
+}
+
+#[derive(Debug)]
+pub struct LeafErr(pub String);
+
+impl std::fmt::Display for LeafErr {
+    fn fmt(&self, f: &mut std::fmt::Formatter<'_>) -> std::fmt::Result {
+        f.write_str(&self.0)
+    }
+}
+
+impl std::error::Error for LeafErr {}
+
+/// An error whose sources are stored inline (chains of 1..=4 messages; longer ones are boxed at the tail).
+pub fn inline_err(chain: &[String]) -> Box<dyn std::error::Error + 'static> {
+    fn wrap<E>(m: &str, inner: E) -> InlineErr<E> {
+        InlineErr { inner, msg: m.to_owned() }
+    }
+    let leaf = |m: &String| LeafErr(m.clone());
+    match chain {
+        [] => Box::new(LeafErr(String::new())),
+        [a] => Box::new(leaf(a)),
+        [a, b] => Box::new(wrap(a, leaf(b))),
+        [a, b, c] => Box::new(wrap(a, wrap(b, leaf(c)))),
+        [a, b, c, d] => Box::new(wrap(a, wrap(b, wrap(c, leaf(d))))),
+        [a, b, c, rest @ ..] => Box::new(wrap(a, wrap(b, wrap(c, ChainErr::new(rest))))),
+    }
+}
+
 pub type Entries = Vec<(String, Val)>;
 
 pub fn entries_tok(es: &[(String, Val)]) -> String {
